@@ -299,8 +299,24 @@ def check_C07(run):
                     continue
                 e[pos_] = chr(code)
                 alias.append(" ".join(pp[:3] + ["".join(e)] + pp[4:]))
+    # a man on the en-passant square, or on the square the pushed pawn came from / passed over
+    epocc = []
+    for f in epf:
+        pp = f.split(" ")
+        b = G.parse_board(f)
+        ef, er = ord(pp[3][0]) - 97, int(pp[3][1]) - 1
+        if not (0 <= ef < 8 and er in (2, 5)):
+            continue
+        behind = G.sq(ef, er + (1 if er == 5 else -1))      # where the pawn started
+        for target in (G.sq(ef, er), behind):
+            for ch in "NBRQPnbrqp":
+                b2 = dict(b)
+                if target in b2:
+                    continue
+                b2[target] = ch
+                epocc.append(G.fen_of(b2, pp[1], pp[2], pp[3], pp[4], pp[5]))
     bad = G.fen_mutants(rng, good + shred, 6000 if th else 900)
-    strings = [(s, "ep-alias") for s in alias] + [(s, "canonical") for s in good] + [(s, "shredder") for s in shred] + [(s, "special") for s in special] + [(s, "mutant") for s in bad] + [(s, "castle-semantic") for s in sem]
+    strings = [(s, "ep-occupied") for s in epocc] + [(s, "ep-alias") for s in alias] + [(s, "canonical") for s in good] + [(s, "shredder") for s in shred] + [(s, "special") for s in special] + [(s, "mutant") for s in bad] + [(s, "castle-semantic") for s in sem]
     strings = [(s, c) for s, c in strings if "\t" not in s and "\n" not in s and all(not (0xD800 <= ord(ch) <= 0xDFFF) for ch in s)]
     enc = lambda s: " ".join(str(ord(ch)) for ch in s)
     nv = 0
@@ -611,6 +627,14 @@ def check_C05(run):
         for st in strs:
             if st[1] == kingrow and st[3] == kingrow:
                 extra.append(("0", f, f, [st, rng.choice(strs)], 0, 0))
+    # the OTHER colour's conventional castling string while the mover's own castling on that wing is legal (must denote nothing),
+    # next to the mover's own string (must castle); both modes, both colours
+    for f in ("r3k2r/8/8/8/8/8/8/R3K2R w KQkq - 0 1", "r3k2r/8/8/8/8/8/8/R3K2R b KQkq - 0 1",
+              "r3k2r/pppq1ppp/2n2n2/2bpp3/2BPP3/2N2N2/PPPQ1PPP/R3K2R w KQkq - 6 8", "r3k2r/pppq1ppp/2n2n2/2bpp3/2BPP3/2N2N2/PPPQ1PPP/R3K2R b KQkq - 6 8",
+              "4k2r/8/8/8/8/8/8/R3K3 w Qk - 0 1", "4k2r/8/8/8/8/8/8/R3K3 b Qk - 0 1"):
+        for frcflag in ("0", "1"):
+            for tok in ("e1g1", "e1c1", "e8g8", "e8c8"):
+                extra.append((frcflag, f, f, [tok, rng.choice(["e1g1", "e8g8", "e1c1", "e8c8", "a2a3", "a7a6"])], 0, 0))
     okf = vlib.run_model_par([f"inD\t{e[1]}" for e in extra])
     cur = [c for c in cur if (c[1], c[5]) not in ambiguous]
     cur = cur + [e for e, o in zip(extra, okf) if o == "1"]
